@@ -354,6 +354,8 @@ protected:
   {
     if (cfg.registry) {
       rlbox_sim_sandbox* s = finder(example);
+      n_registry++;
+      last_registry_inst = s ? s->inst_id : -1;
       if (s) {
         sim::bev("registry lookup -> inst=%d", s->inst_id);
         return reinterpret_cast<uintptr_t>(s->mem.base);
@@ -361,6 +363,8 @@ protected:
       sim::bev("registry lookup -> none");
       if (sim::g_ctx)
         sim::g_ctx->probe("registry_lookup_none");
+      // a real plug-in dereferences what the finder returned: model the crash as a trap
+      throw sim::GuestTrap{ "backend: no live sandbox owns the example address" };
     }
     return reinterpret_cast<uintptr_t>(example) & ~static_cast<uintptr_t>(cfg.size - 1);
   }
@@ -394,6 +398,7 @@ protected:
   inline T_PointerType impl_malloc_in_sandbox(size_t size)
   {
     SIM_YIELD("impl_malloc");
+    n_mallocs++;
     if (sim::g_fault.malloc_fail > 0) {
       sim::g_fault.malloc_fail--;
       if (sim::g_ctx)
@@ -518,6 +523,7 @@ protected:
   inline T_PointerType impl_register_callback(void* key, void* callback)
   {
     SIM_YIELD("impl_register");
+    n_regs++;
     for (size_t i = (size_t)first_slot; i < table.size(); i++) {
       if (table[i].kind == 0) {
         table[i] = Entry{ callback, 2, key, &sim::sigtag<T_Ret(T_Args...)>::c };
@@ -543,6 +549,7 @@ protected:
   inline void impl_unregister_callback(void* key)
   {
     SIM_YIELD("impl_unregister");
+    n_unregs++;
     for (size_t i = (size_t)first_slot; i < table.size(); i++) {
       if (table[i].kind == 2 && table[i].key == key) {
         table[i] = Entry();
@@ -600,6 +607,11 @@ public:
   uint32_t last_free_rep = 0;
   uint64_t n_frees = 0;
   uint64_t n_lookups = 0;
+  uint64_t n_mallocs = 0;
+  uint64_t n_regs = 0;
+  uint64_t n_unregs = 0;
+  static inline thread_local int last_registry_inst = -2; // -2 not consulted, -1 none
+  static inline thread_local uint64_t n_registry = 0;
 };
 
 } // namespace rlbox
